@@ -1361,6 +1361,9 @@ impl Traceable for JsObject {
                 if let Some(JsValue::Object(obj)) = &state.throw_value {
                     visitor(obj.copy_ref());
                 }
+                if let Some(JsValue::Object(obj)) = &state.return_value {
+                    visitor(obj.copy_ref());
+                }
             }
             ExoticObject::Environment(env_data) => {
                 // Trace all bindings in the environment
@@ -3024,6 +3027,9 @@ pub struct BytecodeGeneratorState {
     pub is_async: bool,
     /// Exception to throw when resuming (for generator.throw())
     pub throw_value: Option<JsValue>,
+    /// Value to return from the suspended yield when resuming (for generator.return()):
+    /// the enclosing finally blocks run before the generator completes with it
+    pub return_value: Option<JsValue>,
 }
 
 impl fmt::Debug for BytecodeGeneratorState {
